@@ -12,8 +12,8 @@ use crate::component::datatype::SampleSizeSpec;
 // UTF-8-like coded number: complete over all 2^36 values (split by byte count) + rejection above
 // ================================================================================================
 
-const UTF8_CLASS_LO: [u64; 8] = [0, 0, 1 << 7, 1 << 11, 1 << 16, 1 << 21, 1 << 26, 1 << 31];
-const UTF8_CLASS_HI: [u64; 8] = [0, 1 << 7, 1 << 11, 1 << 16, 1 << 21, 1 << 26, 1 << 31, 1 << 36];
+pub(crate) const UTF8_CLASS_LO: [u64; 8] = [0, 0, 1 << 7, 1 << 11, 1 << 16, 1 << 21, 1 << 26, 1 << 31];
+pub(crate) const UTF8_CLASS_HI: [u64; 8] = [0, 1 << 7, 1 << 11, 1 << 16, 1 << 21, 1 << 26, 1 << 31, 1 << 36];
 
 /// For every value whose shortest code has L bytes: the encoder emits exactly L bytes, an RFC 9639
 /// decoder (shortest-form, continuation bytes 10xxxxxx) reads the value back, and
@@ -50,7 +50,7 @@ fn c02_utf8_body<const L: usize>() {
 /// equal to the real function on each class by units c02_utf8_len1..7.
 macro_rules! utf8_contract {
     ($name:ident, $l:expr) => {
-        fn $name(val: u64) -> Result<heapless::Vec<u8, 7>, RangeError> {
+        pub(crate) fn $name(val: u64) -> Result<heapless::Vec<u8, 7>, RangeError> {
             kani::assume(UTF8_CLASS_LO[$l] <= val && val < UTF8_CLASS_HI[$l]);
             let spec = spec_utf8_encode(val, $l);
             let mut ret = heapless::Vec::new();
@@ -67,7 +67,7 @@ macro_rules! bytesize_contract {
     ($name:ident, $l:expr) => {
         /// callee contract for `utf8like_bytesize` on the class (proved by c02_utf8_len*): a
         /// CONCRETE byte count, so that `reserve(count_bits())` keeps a concrete capacity.
-        const fn $name(_val: usize) -> usize {
+        pub(crate) const fn $name(_val: usize) -> usize {
             $l
         }
     };
@@ -184,146 +184,4 @@ fn c02_channel_assignment_write() {
     assert!(s.id.len == 4 && (s.id.w[0] >> 60) == 10);
     assert!(ChannelAssignment::MidSide.count_bits() == 4);
     assert!(ChannelAssignment::Independent(n).count_bits() == 4);
-}
-
-// ================================================================================================
-// Frame header: RFC 9639 section 9.1 layout, reserved bits, CRC-8, count_bits
-// ================================================================================================
-
-fn ideal_eq(a: &Ideal, b: &Ideal) {
-    assert!(a.len == b.len);
-    let mut i = 0;
-    while i < IDEAL_WORDS {
-        assert!(a.w[i] == b.w[i]);
-        i += 1;
-    }
-}
-
-/// Fixed-blocksize header with an L-byte frame number and block-size / sample-rate specs whose
-/// enum VARIANT is concrete per harness (payloads symbolic): every field at its RFC position,
-/// reserved bits zero, last byte == CRC-8 of the preceding bytes, total == count_bits().
-/// (That `from_size` / `from_freq` pick the variant whose code denotes the value is
-/// datatype::verif::c02_block_size_code_all / c02_sample_rate_code_all.)
-fn c02_header_body<const L: usize, const BE: usize, const RE: usize>(
-    bss: BlockSizeSpec,
-    srs: SampleRateSpec,
-    ch_variant: u8,
-) {
-    let num: u32 = kani::any();
-    kani::assume(num < (1u32 << 31));
-    kani::assume(UTF8_CLASS_LO[L] <= num as u64 && (num as u64) < UTF8_CLASS_HI[L]);
-    // the channel-assignment VARIANT is concrete per call (a symbolic variant merges differently
-    // typed sink calls and makes the buffer length symbolic); the channel count is symbolic.
-    let (ca, ch_tag): (ChannelAssignment, u8) = match ch_variant {
-        // (symbolic channel counts: unit c02_channel_assignment_write)
-        0 => (ChannelAssignment::Independent(2), 1),
-        4 => (ChannelAssignment::Independent(8), 7),
-        1 => (ChannelAssignment::LeftSide, 8),
-        2 => (ChannelAssignment::RightSide, 9),
-        _ => (ChannelAssignment::MidSide, 10),
-    };
-    let bits: u8 = kani::any();
-    kani::assume(bits == 8 || bits == 12 || bits == 16 || bits == 20 || bits == 24);
-    let sss = SampleSizeSpec::from_bits(bits).unwrap();
-    let bs = bss.block_size().unwrap() as u32;
-    let mut h = FrameHeader::from_specs(bss, ca, sss, srs);
-    h.set_frame_offset(FrameOffset::Frame(num));
-
-    let mut s = SpecSink::new();
-    assert!(h.write(&mut s).is_ok());
-
-    // expected bits, straight from RFC 9639 section 9.1
-    let mut e = Ideal::new();
-    e.push_lsbs(0b11111111111110, 14); // sync code
-    e.push_lsbs(0, 1); // reserved
-    e.push_lsbs(0, 1); // blocking strategy: fixed block size
-    e.push_lsbs(bss.tag() as u64, 4);
-    e.push_lsbs(srs.tag() as u64, 4);
-    e.push_lsbs(ch_tag as u64, 4);
-    e.push_lsbs(sss.into_tag() as u64, 3);
-    e.push_lsbs(0, 1); // reserved
-    // coded number: the closed-form RFC code (checked to decode to `num` in shortest form)
-    let code = spec_utf8_encode(num as u64, L);
-    let mut i = 0;
-    while i < L {
-        e.push_lsbs(code[i] as u64, 8);
-        i += 1;
-    }
-    assert!(spec_utf8_decode(&code[0..L]) == Some((num as u64, L)));
-    // shape: the extra-field widths are concrete per harness
-    assert!(spec_blocksize_extra_bits(bss.tag()) == BE);
-    assert!(spec_samplerate_extra_bits(srs.tag()) == RE);
-    e.push_lsbs((bs as u64).wrapping_sub(1), BE);
-    let sr_extra: u64 = match srs {
-        SampleRateSpec::KHz(x) => x as u64,
-        SampleRateSpec::Hz(x) | SampleRateSpec::DaHz(x) => x as u64,
-        _ => 0,
-    };
-    e.push_lsbs(sr_extra, RE);
-    let nbytes = (32 + 8 * L + BE + RE) / 8;
-    assert!(e.len == 8 * nbytes);
-    let mut hb = [0u8; 16];
-    let mut i = 0;
-    while i < nbytes {
-        hb[i] = e.byte(i);
-        i += 1;
-    }
-    e.push_lsbs(spec_crc8(&hb[0..nbytes]) as u64, 8);
-
-    ideal_eq(&s.id, &e);
-    assert!(h.count_bits() == e.len);
-    // decoder view: the block-size code denotes the header's block size
-    assert!(spec_blocksize(bss.tag(), bs.wrapping_sub(1)) == Some(bs));
-    assert!(spec_samplesize(sss.into_tag()) == Some(bits as u32));
-    assert!(srs.tag() <= 14);
-}
-
-//@ unit props=C02,C08 tier=quick kind=complete timeout=900 funcs="FrameHeader::write; FrameHeader::count_bits; ChannelAssignment::write" stubs="encode_to_utf8like -> closed-form RFC code of the class; utf8like_bytesize -> byte count of the class (both proved by c02_utf8_len*)" bound="shape: 1-byte frame number, 16-bit block-size extra, coded sample rate; all field values symbolic"
-#[kani::proof]
-#[kani::unwind(20)]
-#[kani::stub(std::fmt::format, stub_format)]
-#[kani::stub(encode_to_utf8like, contract_utf8_l1)]
-#[kani::stub(utf8like_bytesize, contract_bytesize_l1)]
-fn c02_header_len1_bs16_sr0() {
-    let x: u16 = kani::any();
-    kani::assume(x < 65535);
-    c02_header_body::<1, 16, 0>(BlockSizeSpec::ExtraTwoBytes(x), SampleRateSpec::R44_1kHz, 0);
-}
-
-//@ unit props=C02,C08 tier=quick kind=complete timeout=900 funcs="FrameHeader::write; FrameHeader::count_bits; ChannelAssignment::write" stubs="encode_to_utf8like -> closed-form RFC code of the class; utf8like_bytesize -> byte count of the class (both proved by c02_utf8_len*)" bound="shape: 3-byte frame number, table block size, 16-bit sample-rate extra; all field values symbolic"
-#[kani::proof]
-#[kani::unwind(20)]
-#[kani::stub(std::fmt::format, stub_format)]
-#[kani::stub(encode_to_utf8like, contract_utf8_l3)]
-#[kani::stub(utf8like_bytesize, contract_bytesize_l3)]
-fn c02_header_len3_bs0_sr16() {
-    let k: u8 = kani::any();
-    kani::assume(k <= 7);
-    let x: u16 = kani::any();
-    c02_header_body::<3, 0, 16>(BlockSizeSpec::Pow2Mul256(k), SampleRateSpec::DaHz(x), 3);
-}
-
-//@ unit props=C02,C08 tier=thorough kind=complete timeout=900 funcs="FrameHeader::write; FrameHeader::count_bits" stubs="encode_to_utf8like -> closed-form RFC code of the class; utf8like_bytesize -> byte count of the class (both proved by c02_utf8_len*)" bound="shape: 6-byte frame number (up to 2^31-1), 8-bit block-size extra, 8-bit sample-rate extra"
-#[kani::proof]
-#[kani::unwind(20)]
-#[kani::stub(std::fmt::format, stub_format)]
-#[kani::stub(encode_to_utf8like, contract_utf8_l6)]
-#[kani::stub(utf8like_bytesize, contract_bytesize_l6)]
-fn c02_header_len6_bs8_sr8() {
-    let x: u8 = kani::any();
-    // (ExtraByte(255) = 256 samples is never built by from_size but is a valid code)
-    let y: u8 = kani::any();
-    c02_header_body::<6, 8, 8>(BlockSizeSpec::ExtraByte(x), SampleRateSpec::KHz(y), 1);
-}
-
-//@ unit props=C02,C08 tier=thorough kind=complete timeout=900 funcs="FrameHeader::write; FrameHeader::count_bits" stubs="encode_to_utf8like -> closed-form RFC code of the class; utf8like_bytesize -> byte count of the class (both proved by c02_utf8_len*)" bound="shape: 2-byte frame number, table block size, sample rate from STREAMINFO (code 0)"
-#[kani::proof]
-#[kani::unwind(20)]
-#[kani::stub(std::fmt::format, stub_format)]
-#[kani::stub(encode_to_utf8like, contract_utf8_l2)]
-#[kani::stub(utf8like_bytesize, contract_bytesize_l2)]
-fn c02_header_len2_bs0_srinfo() {
-    let k: u8 = kani::any();
-    kani::assume(k <= 3);
-    c02_header_body::<2, 0, 0>(BlockSizeSpec::Pow2Mul576(k), SampleRateSpec::Unspecified, 2);
 }
